@@ -27,7 +27,7 @@ pub fn hash64(data: &[u8]) -> u64 {
 pub fn hash_str(s: &str) -> u64 { hash64(s.as_bytes()) }
 
 /// Words that mean something to one of the protocols; generated as ordinary *values* (names, maps, rule values).
-pub const KEYWORDS: &[&str] = &["final", "queryid", "splitnum", "player_", "score_0", "team_t", "hostname", "mapname", "numplayers", "maxplayers", "password", "true", "false", "True", "0", "1", "-1", "Mutator", "mutator", "MutatorCount", "GamePassword", "EOT", "statusResponse", "print", "disconnect", "MCPE", "Survival", "bot_5", "echo", "final\\", "\\final\\"];
+pub const KEYWORDS: &[&str] = &["final", "queryid", "splitnum", "player_", "score_0", "team_t", "hostname", "mapname", "numplayers", "maxplayers", "password", "true", "false", "True", "0", "1", "-1", "Mutator", "mutator", "MutatorCount", "GamePassword", "EOT", "statusResponse", "print", "disconnect", "MCPE", "Survival", "bot_5", "echo", "final\\", "\\final\\", "]]>", "a]]>b", "<![CDATA[x]]>", "&amp;", "&#10;", "<!--", "?>"];
 
 impl Rng {
     pub fn new(seed: u64) -> Self {
@@ -161,7 +161,9 @@ impl Rng {
     pub fn text_class(&mut self, class: u64, n: usize, forbidden: &[char]) -> String {
         const ASCII: &[u8] = b"abcdefghijklmnopqrstuvwxyzABCDEFGHIJKLMNOPQRSTUVWXYZ0123456789 _-.:[]()!#";
         const MARKUP: &[char] = &['<', '>', '&', '\'', '"', '/', '\\', ';', ',', '=', '%', '$', '{', '}', '|', '^', '~', '`', '@', '?', '*', '+'];
-        const MULTI: &[char] = &['é', 'ß', 'ñ', 'ü', 'Ω', 'ж', '中', '日', '€', '→', '§', '\u{00a0}', '\u{07ff}', '\u{0800}', '\u{ffff}', '😀', '\u{10000}', '\u{10ffff}', '\u{fffd}', '\u{feff}'];
+        const MULTI: &[char] = &['é', 'ß', 'ñ', 'ü', 'Ω', 'ж', '中', '日', '€', '→', '§', '\u{00a0}', '\u{07ff}', '\u{0800}', '\u{ffff}', '😀', '\u{10000}', '\u{10ffff}', '\u{fffd}', '\u{feff}',
+            // edges of the XML name classes: excluded from names although their neighbours are allowed
+            '\u{37e}', '\u{37d}', '\u{37f}', '\u{d7}', '\u{f7}', '\u{b7}', '\u{2ff}', '\u{300}', '\u{36f}', '\u{370}', '\u{2000}', '\u{200c}', '\u{200e}', '\u{203f}', '\u{2041}', '\u{206f}', '\u{2190}', '\u{2bff}', '\u{2ff0}', '\u{3000}', '\u{fdd0}', '\u{fdef}', '\u{f0000}'];
         const CTRL: &[char] = &['\u{1}', '\u{2}', '\t', '\n', '\r', '\u{1b}', '\u{1f}', '\u{7f}', '\u{80}', '\u{9f}'];
         let mut s = String::new();
         let mut guard = 0;
